@@ -458,9 +458,9 @@ func init() {
 		Level: "exploration",
 		Cases: func(tier string) int {
 			if tier == "thorough" {
-				return 400000
+				return 10000000
 			}
-			return 24000
+			return 300000
 		},
 		Run:  runC13,
 		Rule: "each case = (seeded stream of 1..5 XML / sequence-XML / JSON documents with drawn separators) x (reader form: plain, Raw, bulk handler, bulk Raw handler, drawn stop index) x (delivery schedule drawn from the tape: reader kind, chunk policy, EOF with or after the last data, (offset,count) zero-reads, optional injected error / early EOF); one case in eight instead enumerates every single (0,nil)-read position x both EOF modes for its stream. A case is non-trivial when a zero-read, a data+EOF read, an injected error or an early EOF was actually delivered during a decode call; distinct = distinct (stream, form, stop index, schedule) hashes among those.",
